@@ -546,6 +546,8 @@ EXPECTED_NORMALISATIONS = [
     ("E5", "opset_import with a repeated domain: one entry per domain, the last version"),
     ("E6", "several value_info entries with one name: the last one counts"),
     ("E7", "external_data keys other than location/offset/length/checksum are dropped"),
+    ("E8", "IR<10: a main-graph value named like the experimental entry 'domain::name/value' of a function value: "
+           "nothing changes (the entry describes the graph value; the function's own entry is not written, D320)"),
 ]
 
 
@@ -1526,6 +1528,19 @@ def edge(rng, kind, p):
         return p, what
     gs = list(_graphs_of(p))
     fs = (list(p.functions) if isinstance(p, ModelProto) else []) + ([p] if isinstance(p, FunctionProto) else [])
+    if isinstance(p, ModelProto) and p.ir_version < 10 and rng.random() < 0.25:
+        # E8 (D320): a value of the main graph whose name is the experimental entry name of a function value.
+        # On load the entry is attached to both; on save the function's entry is not written (reserved name).
+        cands = [(f, v) for f in p.functions if not f.overload
+                 for v in list(f.input) + [o for n in f.node for o in n.output if o]]
+        if cands:
+            f, v = rng.choice(cands)
+            full = f"{f.domain}::{f.name}/{v}"
+            if full not in {o for n in p.graph.node for o in n.output}:
+                p.graph.node.add(op_type="Custom", name="e8", output=[full])
+                if full not in {x.name for x in p.graph.value_info} or rng.random() < 0.5:
+                    gen.vi(p.graph.value_info.add(), full, typed=True)
+                what.append("E8:ir9-graph-value-named-like-function-entry")
     for _ in range(rng.choice([1, 1, 2])):
         c = rng.randrange(8)
         g = rng.choice(gs) if gs else None
@@ -1714,6 +1729,12 @@ def run_cases(ctx: Ctx, cases):
                 ctx.fail(sig, "from_proto/to_proto raised on a supported proto", rec)
             else:
                 a, b = py_norm(kind, p), py_norm(kind, rt)
+                # "duplicated": the result never describes one name twice in a value_info list (py_norm folds
+                # repeated names, so this is checked on the raw result)
+                dup = [v.name for g_ in _graphs_of(rt) for v in g_.value_info] if kind in ("graph", "model", "function", "node") else []
+                per_graph_dup = any(len({v.name for v in g_.value_info}) != len(g_.value_info) for g_ in _graphs_of(rt)) if dup else False
+                if per_graph_dup:
+                    ctx.fail(f"C02 {kind} value_info-entry-duplicated", "the round trip wrote two value_info entries with one name", rec)
                 if a != b:
                     sig = classify(kind, p, a, b)
                     if is_known(ctx, sig):
